@@ -74,6 +74,11 @@ pub fn check(t: &Trace<'_>, out: &mut CaseOut) -> bool {
                                     out.violations.push(viol("C04", "C04/ack-refused-although-it-fits", format!("conn {}: inbound PUBLISH (qos {}, id {:?}) was neither delivered nor acknowledged: {} returned PacketTooLarge although the broker's Maximum Packet Size is {:?}", conn, qos, pid, op.unwrap().kind, mps)));
                                 }
                             }
+                            // acknowledgements do not live in the transmit arena: "no room" is no
+                            // excuse either ("... even when the transmit arena has no free slot")
+                            if matches!(op.unwrap().outcome, Outcome::Err(ErrRepr::BufferTooSmall)) && !hostile {
+                                out.violations.push(viol("C04", "C04/ack-refused-for-lack-of-arena-room", format!("conn {}: inbound PUBLISH (qos {}, id {:?}) was neither delivered nor acknowledged: {} returned BufferTooSmall (arena {:?} of {} bytes used)", conn, qos, pid, op.unwrap().kind, op.unwrap().snap_before.as_ref().map(|s| s.tx.used), t.log.cfg.tx)));
+                            }
                             // a PUBLISH refused because its acknowledgement cannot be sent under
                             // this connection's tiny limit has been neither delivered nor
                             // acknowledged, the connection ends: when the broker sends it again
